@@ -97,7 +97,7 @@ CHECKS = {
     "C10": dict(
         technique="Lean 4 proof (totality of the lookup, round trip at any depth under distinct normalised names) + correspondence of tokenising/lookup/not-found message on real Traversable trees",
         text=(
-            "Machine-checked so far: C10_total (for every path string the lookup finds a node or yields the `was not found` message: no exception path), C10_root, C10_child (in a directory whose children have pairwise distinct normalised names the token equal to a child's printed name finds exactly that child, at any depth of the remaining path). "
+            "Machine-checked so far: C10_partition_letters_upper / _nonempty / _first (AKAI partition names A: .. Z:, AA:, ...: every character before the colon is an upper-case letter, so the listing never blanks one and the lookup's case folding never changes one), C10_total (for every path string the lookup finds a node or yields the `was not found` message: no exception path), C10_root, C10_child (in a directory whose children have pairwise distinct normalised names the token equal to a child's printed name finds exactly that child, at any depth of the remaining path). "
             "C10_roundtrip — at any depth: for any node at index path idx, the path made of the names shown for the nodes on the way addresses exactly idx, provided no earlier sibling has the same normalised name at each level. C10_tokenize / C10_printed_path (Props/C10T) — the surface syntax: non-empty printed names without separators, joined by any of '/', '\\' or a double backslash, with any blanks before and after and with or without one closing separator, are tokenised back to exactly those names (induction over the splitter, strip_around), and the text therefore resolves to exactly the node whose names were printed. NOT proved: items with a blank printed name in the middle of a path (the property excludes blank names; `a\\` + `` + `\\b` would read as one double separator). Tie: path tokenising on every string of length <= 4 over {a,A,/,\\,:,space} (plain and AKAI normalisation); trees of real Traversable/LeafElement objects with the real naming routines: "
             "every node x 8 spellings of its printed path must resolve and render, arbitrary strings never raise, and the model's result (node or exact message) equals the real parse_path."
         ),
